@@ -117,6 +117,17 @@ pub fn c02() -> SchedCampaign {
                 },
             },
             Family { weight: 2, params: mixed_family() },
+            Family {
+                weight: 3,
+                params: GenParams {
+                    family: "hot-slots-coinbase",
+                    mix: Mix { coinbase: 8, ..hot_mix() },
+                    ben_roles: &[BenRole::PlainEoa, BenRole::Sender, BenRole::Absent],
+                    zero_tip_pct: 10,
+                    basefees: &[0, 7],
+                    ..conflict_family("hot-slots-coinbase")
+                },
+            },
         ],
         profiles: ProfileWeights {
             quiet: 1,
@@ -132,7 +143,7 @@ pub fn c02() -> SchedCampaign {
                 Class::Finality,
                 Class::Commit,
             ],
-            directors: obs::D_CLAIM_LOCK | obs::D_VALIDATE_SCAN | obs::D_EXEC_PUBLISH | obs::D_COORD,
+            directors: obs::D_CLAIM_LOCK | obs::D_VALIDATE_SCAN | obs::D_EXEC_PUBLISH | obs::D_COORD | obs::D_ESTIMATE_REWIND,
         },
         seq_pct: 2,
     }
@@ -198,7 +209,7 @@ pub fn c07() -> SchedCampaign {
         ],
         profiles: ProfileWeights {
             focus_classes: &[Class::Mv, Class::ExecPublish, Class::ValidateScan, Class::Commit, Class::EstimateRewind],
-            directors: obs::D_EXEC_PUBLISH | obs::D_VALIDATE_SCAN | obs::D_CLAIM_LOCK | obs::D_COMMIT_HEAD,
+            directors: obs::D_EXEC_PUBLISH | obs::D_VALIDATE_SCAN | obs::D_CLAIM_LOCK | obs::D_COMMIT_HEAD | obs::D_ESTIMATE_REWIND,
             ..ProfileWeights::default()
         },
         seq_pct: 8,
